@@ -161,7 +161,7 @@ pub struct Violation {
 /// is assigned to worker i mod W, so results do not depend on timing. Each run may report
 /// violations; at most `max_violations` (lowest run indexes first) are kept.
 /// Wall-clock budget of one batch in seconds (0 = none). Set by `main` for the thorough tier
-/// (default 3000 s, `VERIF_BUDGET_S` overrides); the quick tier is bounded by its run count only.
+/// (default 1800 s, `VERIF_BUDGET_S` overrides); the quick tier is bounded by its run count only.
 pub static BUDGET_S: AtomicU64 = AtomicU64::new(0);
 
 pub fn parallel_runs<F>(prop: &str, n_runs: u64, f: F) -> (Counters, Vec<Violation>, f64)
